@@ -192,6 +192,8 @@ def verify_function(index, contracts, c, props_filter=None):
             raise
         res.error = f"unsupported: {e}"
     except AttributeError as e:
+        if os.environ.get("PYVC_DEBUG"):
+            raise
         res.error = f"contract refers to a vanished name: {e}"
     except z3.Z3Exception as e:
         if os.environ.get("PYVC_DEBUG"):
